@@ -53,6 +53,15 @@ def replies(peer, start=0):
     return out
 
 
+def draw_noise(d, n, first):
+    """octet string of 0..n octets; with `first` the leading octets are CONCRETE (classes are looked up by them) and
+    0..n further octets are free; built with a concrete length per path"""
+    if first is None:
+        return d.bytes(0, n, 'noise')
+    k = d.index(n + 1, 'noise_tail_length')
+    return bytes(list(first) + [d.int(0, 255, 'noise%d' % i) for i in range(k)])
+
+
 def check_health(d, w, lan, dev, peer, what):
     """after quiescence: no transaction, no timer, no deferred call; a fresh valid request is answered correctly"""
     w.run()
@@ -114,19 +123,42 @@ def svc_garbage(d, svc, n):
     d.reach()
 
 
+def _v_read_property(inv, d):
+    return read_pv(inv)
+
+
+def _v_write_property(inv, d):
+    # presentValue := Real 72.0 (the write itself is refused: read-only property)
+    v = [0x42, 0x90, 0x00, 0x00]
+    return bytes([0x00, 0x05, inv, 0x0F, 0x0C, 0x00, 0x80, 0x00, 0x01, 0x19, 0x55, 0x3E, 0x44] + v + [0x3F])
+
+
+def _v_rpm(inv, d):
+    return bytes([0x00, 0x05, inv, 0x0E, 0x0C, 0x00, 0x80, 0x00, 0x01, 0x1E, 0x09, 0x55, 0x09, 0x4D, 0x1F])
+
+
+def _v_who_is(inv, d):
+    return bytes([0x10, 0x08, 0x09, 0x14, 0x19, 0x14])
+
+
+def _v_subscribe_cov(inv, d):
+    # [0] process id, [1] analogValue 1, [2] issue confirmed notifications, [3] lifetime: value octets free
+    pid, flag, life = 1, d.int(0, 1, 'confirmed'), 60
+    return bytes([0x00, 0x05, inv, 0x05, 0x09, pid, 0x1C, 0x00, 0x80, 0x00, 0x01, 0x29, flag, 0x39, life])
+
+
 VALID = {
-    "read-property": lambda inv: read_pv(inv),
-    "write-property": lambda inv: bytes([0x00, 0x05, inv, 0x0F, 0x0C, 0x00, 0x80, 0x00, 0x01, 0x19, 0x55,
-                                         0x3E, 0x44, 0x42, 0x90, 0x00, 0x00, 0x3F]),
-    "read-property-multiple": lambda inv: bytes([0x00, 0x05, inv, 0x0E, 0x0C, 0x00, 0x80, 0x00, 0x01, 0x1E, 0x09, 0x55,
-                                                 0x09, 0x4D, 0x1F]),
-    "who-is": lambda inv: bytes([0x10, 0x08, 0x09, 0x14, 0x19, 0x14]),
-    # SubscribeCOV: [0] process 1, [1] analogValue 1, [2] issue confirmed = true, [3] lifetime 60
-    "subscribe-cov": lambda inv: bytes([0x00, 0x05, inv, 0x05, 0x09, 0x01, 0x1C, 0x00, 0x80, 0x00, 0x01, 0x29, 0x01, 0x39, 0x3C]),
+    "read-property": _v_read_property,
+    "write-property": _v_write_property,
+    "read-property-multiple": _v_rpm,
+    "who-is": _v_who_is,
+    "subscribe-cov": _v_subscribe_cov,
 }
+FRAME_LEN = {"read-property": 13, "write-property": 20, "read-property-multiple": 17, "who-is": 8, "subscribe-cov": 17}
 
 
-@meta(bounds="a valid frame of the instance's service (built octet by octet from the standard) with ONE mutation at a "
+@meta(bounds="a valid frame of the instance's service (built octet by octet from the standard; SubscribeCOV's "
+             "confirmed flag is free) with ONE mutation at a "
              "symbolic position: substitution by a symbolic octet / deletion / insertion of a symbolic octet; delivered "
              "together with a second, valid ReadProperty queued in the same instant and followed by a third valid request",
       outside="two or more mutations per frame; services other than the four instantiated",
@@ -134,15 +166,19 @@ VALID = {
 def frame_mutation(d, service, mutation, part=None):
     w, lan, dev, peer, av = make_world()
     inv = 0x21
-    apdu = VALID[service](inv)
-    confirmed = apdu[0] >> 4 == 0
+    apdu = VALID[service](inv, d)
+    confirmed = service != "who-is"
     full = nl.frame(apdu, confirmed)
     last = len(full) - (0 if mutation == "insert" else 1)
-    lo, hi = 0, last
-    if part is not None:        # (i, n): the i-th of n position ranges, to share the tree between processes
+    positions = list(range(last + 1))
+    if service == "write-property" and mutation == "substitute":
+        # not the four value octets of the Real: any substitution there is just another valid value (and the
+        # float decoder makes the engine enumerate all 256 of them)
+        positions = [p for p in positions if p < 15 or p > 18]
+    if part is not None:        # (i, n): the i-th of n slices of the positions, to share the tree between processes
         i, n = part
-        lo, hi = (last + 1) * i // n, (last + 1) * (i + 1) // n - 1
-    pos = d.int(lo, hi, 'position')
+        positions = positions[len(positions) * i // n: len(positions) * (i + 1) // n]
+    pos = d.pick(positions, 'position')
     if mutation == "delete":
         mutant = full[:pos] + full[pos + 1:]
     else:
@@ -186,11 +222,7 @@ def frame_mutation(d, service, mutation, part=None):
       stubs=STUBS)
 def layer_noise(d, n, first):
     w, lan, dev, peer, av = make_world()
-    noise = d.bytes(0, n, 'noise')
-    if first is not None:
-        d.assume(len(noise) >= len(first))
-        for i, o in enumerate(first):
-            d.assume(noise[i] == o)
+    noise = draw_noise(d, n, first)
     other = nl.RawPeer(PEER + 1, lan)
     noise_first = d.bool('noise_first')
     if noise_first:
@@ -274,11 +306,7 @@ def bip_noise(d, n, first=None):
     av = AnalogValueObject(objectIdentifier=("analogValue", 1), objectName="av1", presentValue=72.5,
                            statusFlags=[0, 0, 0, 0], units="degreesFahrenheit")
     dev.add_object(av)
-    noise = d.bytes(0, n, 'noise')
-    if first is not None:
-        d.assume(len(noise) >= len(first))
-        for i, o in enumerate(first):
-            d.assume(noise[i] == o)
+    noise = draw_noise(d, n, first)
     valid = bvll_unicast(nl.frame(read_pv(0x42), True))
     noise_first = d.bool('noise_first')
     if noise_first:
@@ -319,10 +347,12 @@ def instances(tier):
     q = tier == "quick"
     out = []
     out.append(Inst(bip_noise, dict(n=3 if q else 5), budget=80 if q else 600))
-    out.append(Inst(bip_noise, dict(n=7 if q else 9, first=[0x81, 0x0A]), budget=80 if q else 900, label="unicast-npdu"))
+    out.append(Inst(bip_noise, dict(n=4 if q else 6, first=[0x81, 0x0A]), budget=80 if q else 900, label="unicast-npdu"))
     if not q:
-        out.append(Inst(bip_noise, dict(n=8, first=[0x81, 0x0B]), budget=900, label="broadcast-npdu"))
-        out.append(Inst(bip_noise, dict(n=12, first=[0x81, 0x04]), budget=900, label="forwarded-npdu"))
+        out.append(Inst(bip_noise, dict(n=6, first=[0x81, 0x0B]), budget=900, label="broadcast-npdu"))
+        out.append(Inst(bip_noise, dict(n=10, first=[0x81, 0x04]), budget=900, label="forwarded-npdu"))
+        for f in (0x00, 0x01, 0x02, 0x05, 0x06, 0x07, 0x09, 0x0C):
+            out.append(Inst(bip_noise, dict(n=4, first=[0x81, f]), budget=600, label="function-%02x" % f))
     svcs = sorted(A.confirmed_request_types)
     impl = [12, 15, 14, 16]     # ReadProperty, WriteProperty, ReadPropertyMultiple, WritePropertyMultiple
     if q:
@@ -337,8 +367,8 @@ def instances(tier):
         for mutation in ("substitute", "delete", "insert"):
             if q and service in ("write-property", "read-property-multiple", "subscribe-cov") and mutation == "insert":
                 continue
-            flen = len(VALID[service](0)) + 2
-            parts = 1 if mutation == "delete" else max(3, flen // (3 if q else 2))
+            flen = FRAME_LEN[service]
+            parts = 1 if mutation == "delete" else max(3, flen // 2)
             for i in range(parts):
                 out.append(Inst(frame_mutation, dict(service=service, mutation=mutation, part=(i, parts)),
                                 budget=80 if q else 900, path_timeout=60,
@@ -347,11 +377,12 @@ def instances(tier):
     # area is garbage) and network-layer messages of known / unknown / proprietary types (the type octet is kept
     # concrete: a class looked up by a symbolic key cannot be instantiated by the engine)
     out.append(Inst(layer_noise, dict(n=2 if q else 3, first=None), budget=80 if q else 600))
-    out.append(Inst(layer_noise, dict(n=4 if q else 6, first=[1, 0x00]), budget=80 if q else 900, label="apdu-area,local"))
+    out.append(Inst(layer_noise, dict(n=2 if q else 4, first=[1, 0x00]), budget=80 if q else 900, label="apdu-area,local"))
     for t in ((0x00, 0x01, 0x13, 0x14) if q else (0x00, 0x01, 0x02, 0x03, 0x06, 0x08, 0x12, 0x13, 0x14, 0x7F, 0x80)):
-        out.append(Inst(layer_noise, dict(n=5 if q else 7, first=[1, 0x80, t]), budget=80 if q else 600,
+        out.append(Inst(layer_noise, dict(n=(1 if t == 0x01 else 2) if q else (2 if t == 0x01 else 4), first=[1, 0x80, t]),
+                        budget=80 if q else 600,
                         label="network-message-%02x" % t))
     if not q:
-        out.append(Inst(layer_noise, dict(n=8, first=[1, 0x20]), budget=900, label="apdu-area,dnet"))
-        out.append(Inst(layer_noise, dict(n=8, first=[1, 0x08]), budget=900, label="apdu-area,snet"))
+        out.append(Inst(layer_noise, dict(n=6, first=[1, 0x20]), budget=900, label="apdu-area,dnet"))
+        out.append(Inst(layer_noise, dict(n=6, first=[1, 0x08]), budget=900, label="apdu-area,snet"))
     return out
